@@ -251,3 +251,141 @@ func runRefineGas(r *sim.Run) {
 	r.Shape(uint64(len(steps))<<16 ^ uint64(end) ^ 0xF00D)
 	r.Summary("refinement-table program: %d host calls, %d gas used", len(steps), used)
 }
+
+// Long-block arm of the C04 check: "one unit per executed instruction, out of gas exactly where the counter runs out"
+// must not depend on how long a basic block is. The program is one straight-line basic block of n instructions
+// (n around and beyond 2^16 and 2^17: counters of block lengths narrower than the program allows would wrap there),
+// optionally with one `gas` host call in the middle (host calls do not end a block: execution resumes mid-block).
+// The block counts its own executed additions in r9 and halts returning r9 octets, so a run that executed more than
+// it paid for is visible in the result as well as in the exit reason.
+func runLongBlock(r *sim.Run) {
+	installRefineWrappers()
+	t := r.T
+	ns := []int{1 << 16, 1<<16 + 1, 1<<16 + 2, 1<<16 - 1, 1<<16 + 7, 70000, 1 << 17, 1<<17 + 1, 1<<17 + 5, 3<<16 + 2, 1000, 40000}
+	n := ns[t.Choose(len(ns), "long_n")] + t.Choose(3, "long_n_jitter")
+	adds := n - 3 // the block ends with load_imm_64 r7, move_reg r8<-r9, jump_ind (halt)
+	call := -1
+	if t.Prob(1, 3, "long_call") {
+		call = t.Choose(adds, "long_call_at")
+		adds-- // the ecalli takes the place of one addition
+	}
+	d := &pvmasm.Data{}
+	buf := d.Reserve(adds + 16)
+	a := pvmasm.New()
+	pre := t.Choose(3, "long_prologue") // short blocks before the long one
+	for i := 0; i < pre; i++ {
+		a.MoveReg(12, 11)
+		a.Fallthrough()
+	}
+	a.LoadImm64(9, 0)
+	a.Fallthrough()
+	head := 5 + 2*pre + 2
+	for i, k := 0, 0; k < adds; i++ {
+		if i == call {
+			a.Ecalli(0)
+			continue
+		}
+		a.AddImm64(9, 9, 1)
+		k++
+	}
+	if call >= adds { // the call position fell behind the last addition
+		a.Ecalli(0)
+	}
+	a.LoadImm64(7, buf)
+	a.MoveReg(8, 9)
+	a.Halt()
+	blob := pvmasm.Standard(a.Blob(), d.Bytes, 4096)
+	total := uint64(head + n)
+	if call >= 0 {
+		total += 10
+	}
+	run := func(limit uint64) (res PVM.Psi_M_ReturnType, calls []refCall, goPanic string) {
+		refCur = &calls
+		defer func() {
+			refCur = nil
+			if v := recover(); v != nil {
+				goPanic = fmt.Sprint(v)
+			}
+		}()
+		res = PVM.Psi_M(PVM.StandardCodeFormat(blob), 0, types.Gas(limit), PVM.Argument{}, PVM.RefineOmegas,
+			PVM.HostCallArgs{RefineArgs: PVM.RefineArgs{IntegratedPVMMap: PVM.IntegratedPVMMap{}}})
+		return
+	}
+	desc := fmt.Sprintf("one basic block of %d instructions (%d additions, host call at %d) after %d short blocks", n, adds, call, pre)
+	check := func(limit uint64, tag string) bool {
+		res, calls, goPanic := run(limit)
+		if goPanic != "" {
+			r.Violate("C04", "panic", "long-block-go-panic", "%s gas=%d: a Go panic escaped: %s; program: %s", tag, limit, goPanic, desc)
+			return false
+		}
+		out, halted := res.ReasonOrBytes.([]byte)
+		if limit >= total {
+			if !halted {
+				r.Violate("C04", "oog", "long-block-stopped-with-enough-gas", "%s: gas %d pays for all %d units of the program, but it ended with %v; program: %s", tag, limit, total, res.ReasonOrBytes, desc)
+				return false
+			}
+			if len(out) != adds {
+				r.Violate("C04", "charge", "long-block-executed-count-wrong", "%s: the program halted having executed %d additions, it holds %d; program: %s", tag, len(out), adds, desc)
+				return false
+			}
+			if uint64(res.Gas) != total {
+				r.Violate("C04", "reported", "long-block-reported-gas-wrong", "%s: gas %d: reported used %d, the program costs %d; program: %s", tag, limit, res.Gas, total, desc)
+				return false
+			}
+			return true
+		}
+		if halted {
+			r.Violate("C04", "oog", "long-block-ran-beyond-its-gas", "%s: gas %d does not pay for the %d units of the program, yet it halted having executed %d additions; program: %s", tag, limit, total, len(out), desc)
+			return false
+		}
+		if rs, ok := res.ReasonOrBytes.(PVM.ExitReason); ok && rs.GetReasonType() != PVM.OUT_OF_GAS {
+			r.Violate("C04", "oog", "long-block-wrong-exit", "%s: gas %d of %d needed: expected out-of-gas, got %v; program: %s", tag, limit, total, rs.GetReasonType(), desc)
+			return false
+		}
+		if uint64(res.Gas) != limit {
+			r.Violate("C04", "reported", "long-block-reported-gas-after-oog", "%s: out of gas with limit %d but reported used %d; program: %s", tag, limit, res.Gas, desc)
+			return false
+		}
+		if call >= 0 {
+			// the host call is reached iff the gas pays for everything before it; it is entered with what is left
+			before := uint64(head + call + 1)
+			if call >= adds {
+				before = uint64(head + adds + 1)
+			}
+			if limit >= before && len(calls) != 1 {
+				r.Violate("C04", "charge", "long-block-host-call-not-reached", "%s: gas %d pays for the %d instructions up to the host call, %d calls observed; program: %s", tag, limit, before, len(calls), desc)
+				return false
+			}
+			if limit < before && len(calls) != 0 {
+				r.Violate("C04", "oog", "long-block-host-call-reached-without-gas", "%s: gas %d does not pay for the %d instructions up to the host call, yet it was made; program: %s", tag, limit, before, desc)
+				return false
+			}
+			if len(calls) == 1 && calls[0].gasBefore != int64(limit-before) {
+				r.Violate("C04", "charge", "long-block-gas-at-host-call", "%s: host call entered with %d gas, the model says %d; program: %s", tag, calls[0].gasBefore, limit-before, desc)
+				return false
+			}
+		}
+		return true
+	}
+	if !check(bigGas, "long block") {
+		return
+	}
+	// limits around every boundary a wrapped counter would move the out-of-gas point to
+	lims := []uint64{total, total - 1, total + 1, uint64(head), uint64(head + 1), uint64(head + (n-1)%65536), uint64(head + (n-1)%65536 + 1),
+		uint64(head + n%65536), uint64(head + n%65536 + 2), uint64(head + 65535), uint64(head + 65536), uint64(head + 65537), 100, 0}
+	for i := 0; i < 4; i++ {
+		lims = append(lims, uint64(t.Choose(int(total)+2, "long_gas")))
+	}
+	for _, g := range lims {
+		if !check(g, "long block") {
+			return
+		}
+	}
+	r.Count("probe:long_block_programs", 1)
+	if n > 1<<16 {
+		r.Count("probe:block_longer_than_65536_instructions", 1)
+	}
+	r.Nontrivial()
+	r.Shape(uint64(n)<<8 ^ uint64(pre) ^ uint64(call+1)<<32 ^ 0xB10C)
+	r.Summary("long block: %s", desc)
+}
